@@ -6,6 +6,7 @@ COMMON_ASSUMPTIONS = [
     "oracles (reference decoders / models in harness/ref) are written from the standards and self-tested at the start of every run; "
     "a misreading of a standard shared by the encoder's author and the oracle's author would go unnoticed",
     "absence of a violation in the explored cases is not a proof of absence",
+    "the library is built and run for the host platform only (linux/amd64, 64-bit int)",
 ]
 
 PROPS = {}
@@ -133,6 +134,7 @@ PROPS["C14"] = {
         {"name": "regression", "kind": "plain", "test": "TestReplayDir"},
         {"name": "exhaustive", "kind": "plain", "test": "TestC14Exhaustive"},
         {"name": "rapid", "kind": "rapid", "test": "TestC14Rapid", "checks": {"quick": 100000, "thorough": 2000000}},
+        {"name": "huge", "kind": "plain", "test": "TestC14Huge", "tiers": ("thorough",)},
     ],
     "rule": "contents from the C05/C06/C07 generators (Code 39 with and without check character, basic and full ASCII), each followed by 0..3 Scale rounds with "
             "factor 1..3 and margins 0..50; exhaustive: 7-digit EAN inputs (quick every 89th, thorough all), all Code 39 strings of length 1..2, all Code 128 "
@@ -150,6 +152,7 @@ PROPS["C01"] = {
         {"name": "regression", "kind": "plain", "test": "TestReplayDir"},
         {"name": "procs", "kind": "plain", "test": "TestC01Procs"},
         {"name": "hash-twins", "kind": "plain", "test": "TestC01Twins"},
+        {"name": "painted", "kind": "plain", "test": "TestC01Painted"},
         {"name": "magic", "kind": "plain", "test": "TestC01Magic"},
         {"name": "sweep", "kind": "plain", "test": "TestC01Sweep", "plain_shards": 2},
         {"name": "zero-ecc", "kind": "plain", "test": "TestC01ZeroECC"},
@@ -173,6 +176,7 @@ PROPS["C02"] = {
         {"name": "regression", "kind": "plain", "test": "TestReplayDir"},
         {"name": "procs", "kind": "plain", "test": "TestC02Procs"},
         {"name": "hash-twins", "kind": "plain", "test": "TestC02Twins"},
+        {"name": "painted", "kind": "plain", "test": "TestC02Painted"},
         {"name": "magic", "kind": "plain", "test": "TestC02Magic"},
         {"name": "sweep", "kind": "plain", "test": "TestC02Sweep", "plain_shards": 2},
         {"name": "zero-ecc", "kind": "plain", "test": "TestC02ZeroECC"},
@@ -196,6 +200,7 @@ PROPS["C04"] = {
         {"name": "regression", "kind": "plain", "test": "TestReplayDir"},
         {"name": "procs", "kind": "plain", "test": "TestC04Procs"},
         {"name": "hash-twins", "kind": "plain", "test": "TestC04Twins"},
+        {"name": "painted", "kind": "plain", "test": "TestC04Painted"},
         {"name": "magic", "kind": "plain", "test": "TestC04Magic"},
         {"name": "sweep", "kind": "plain", "test": "TestC04Sweep", "plain_shards": 2},
         {"name": "rapid", "kind": "rapid", "test": "TestC04Rapid", "checks": {"quick": 50000, "thorough": 700000}},
@@ -224,6 +229,7 @@ PROPS["C03"] = {
         {"name": "regression", "kind": "plain", "test": "TestReplayDir"},
         {"name": "procs", "kind": "plain", "test": "TestC03Procs"},
         {"name": "hash-twins", "kind": "plain", "test": "TestC03Twins"},
+        {"name": "painted", "kind": "plain", "test": "TestC03Painted"},
         {"name": "magic", "kind": "plain", "test": "TestC03Magic"},
         {"name": "known-findings", "kind": "plain", "test": "TestC03KnownFindings"},
         {"name": "sweep", "kind": "plain", "test": "TestC03Sweep", "plain_shards": 2},
@@ -437,6 +443,7 @@ RULE_ADDENDA['C09'] += ' A result exposes CheckSum() exactly when its source doe
 RULE_ADDENDA['C11'] += ' Sweep also: a slice-based colour type and color.Palette as the model (values that cannot be compared with ==).'
 RULE_ADDENDA['C07'] += ' thorough: 8 million characters (32-bit sums).'
 RULE_ADDENDA['C10'] += ' Thorough tier only: inputs of 1 to 16 million characters (Aztec, PDF417, DataMatrix, QR, Code 128, EAN, Codabar; 1-2 million for 2 of 5 and Code 39/93), each in a process of its own; a process that dies of stack exhaustion or a fatal error is a violation, a time limit or out-of-memory is not judged.'
+RULE_ADDENDA['C14'] += ' Thorough tier only: Code 39 contents of 3 and 51.2 million characters (the sum of character values reaches 2^31), CheckSum() only.'
 RULE_ADDENDA['C16'] += ' Crowd bursts: 600 simultaneous callers of one 2D family with 400-character contents.'
 RULE_ADDENDA['C18'] += ' Byte views of every length 0..8300 and around 2^14..2^17 (fresh zero list and appended pattern) under a watchdog.'
 RULE_ADDENDA['C15'] += ' Eviction part: the first call is also repeated after exactly 255, 256, 257, 8192 (1D and DataMatrix, thorough all: 32768, 65535, 65536) other calls; the Aztec probe reuses the caller buffer for a second payload.'
@@ -446,5 +453,14 @@ RULE_ADDENDA['C06'] += ' Magic part also: digit strings of length 7/8/12/13 modu
 RULE_ADDENDA['C09'] += ' Giant part also: default fill of a scheme-less source while barcode.ColorScheme16 is reassigned.'
 for _pid in ('C01', 'C02', 'C03', 'C04'):
     RULE_ADDENDA[_pid] += ' (procs part: also GOMAXPROCS 16, 17, 24, 32, 48, 64, 100.)'
+RULE_ADDENDA['C01'] += ' Hash-twins part also: pairs of full-capacity contents whose codeword streams (single-block versions) have equal 32-bit digests.'
+for _pid in ('C01', 'C02', 'C03', 'C04'):
+    RULE_ADDENDA[_pid] += ' Painted part: in a process of its own the first result of every size class is painted over through its exposed mutators, then the next symbols of the class are validated.'
+RULE_ADDENDA['C03'] += ' The empty payload (recorded finding F11) is excluded only as far as its recorded symptom goes: any other defect of its symbol is reported.'
+RULE_ADDENDA['C09'] += ' Giant part also: million-pixel 2D sources re-scaled to 2^44..2^52 pixels a side (cross products beyond 2^63).'
+RULE_ADDENDA['C13'] += ' Sweep also: for every Aztec size x every percentage 0..100 x two character classes the longest payload the explicit request accepts (bisection), encoded with automatic sizing.'
+RULE_ADDENDA['C15'] += ' Orders part also: pairs of Aztec calls whose arguments read the same without a delimiter (payload A3 / 3 % against payload A / 33 %).'
+RULE_ADDENDA['C17'] += ' RS histories append to every returned slice (now or after the next call) and hold all earlier results.'
+RULE_ADDENDA['C18'] += ' The byte-view sweep also holds 16 lengths between 2^20 and 2^25+72 bits.'
 for _pid, _add in RULE_ADDENDA.items():
     PROPS[_pid]["rule"] += _add
